@@ -431,6 +431,12 @@ pub fn run_check(def: &PropDef, tier: Tier, seed: u64, max_items: Option<u64>) -
     // 1. replay the committed finding scenarios
     for f in &my_findings {
         let Some(rp) = &f.replay else { continue };
+        // (regression runs of kept changes on the tree they were written for - before the repair
+        // of C18-K1 - leave that finding's scenario out, like the string-id sessions; see
+        // tools/preserving_all.sh)
+        if f.id == "C18-K1" && std::env::var("VERIF_NO_SID").is_ok() {
+            continue;
+        }
         let path = root.join(rp);
         if !path.exists() {
             eprintln!("HARNESS-ERROR: finding {} refers to missing {}", f.id, path.display());
